@@ -23,6 +23,8 @@ SELECTIONS = [
     # a test selected through a nested set (normal.gui) which is also the setup of another selected test
     ("normal..tutorial_gui..client_noop,leaves..tutorial_get..explicit_noop", 3),
     ("normal..tutorial_gui,leaves..tutorial_get..explicit_noop", 3),
+    # a test cloned over several parents selected together with these parents (which worker expands what first matters)
+    ("leaves..tutorial_gui,leaves..tutorial_get..implicit_both", 3),
 ]
 
 SMALL = [s for s in SELECTIONS if s[1] <= 2]
@@ -82,10 +84,21 @@ def base_scenario(g, selections=MEDIUM, nets=NETS_SETS, vm_variants=(VM_DEFAULT,
         spec = gensuite.make_spec(suite)
         leaves = [l["name"] for l in spec["leaves"]]
         sel = g.pick("gsel", ["leaves..gleaves", "leaves..gleaves", "leaves..gleaves.." + g.pick("gleaf", leaves)])
+        if spec.get("net4_no") and g.chance("usenet4", 0.6):
+            # make the generated worker restriction of net4 matter: net4 takes part and the vm has the excluded variants
+            vm = "vm2" if "vm2" in spec["net4_no"] else "vm1"
+            return {
+                "generated": suite, "tests": sel, "vm_strs": dict(VM_DEFAULT, **{vm: ""}),
+                "nets": g.pick("gnets4", ["net2 net4", "net1 net2 net3 net4", "net4 net1"]),
+                "mode": g.pick("mode", list(modes)), "params": dict(BASE_PARAMS),
+                "families": {"durations": g.pick("durations", ["ties", "ties", "spread", "unit"])}, "epochs": [{}],
+            }
         return {
             "generated": suite,
             "tests": sel,
-            "vm_strs": dict(VM_DEFAULT),
+            "vm_strs": dict(g.pick("gvms", [VM_DEFAULT, VM_DEFAULT, VM_DEFAULT,
+                                            {"vm1": "only CentOS\n", "vm2": "", "vm3": "only Ubuntu\n"},
+                                            {"vm1": "", "vm2": "only Win10\n", "vm3": "only Ubuntu\n"}])),
             "nets": g.pick("gnets", ["net1", "net1 net2", "net1 net2 net3", "net2 net4", "cluster1.net6 cluster1.net7",
                                      "net1 cluster1.net6", "net1 net2 net3 net4"]),
             "mode": g.pick("mode", list(modes)),
@@ -140,6 +153,12 @@ def profile_C04(g, tier):
         fam["p_fail"] = g.pick("p_fail0", [0.0, 0.0, 0.2])
     if g.chance("scope", 0.25):
         scen["params"]["pool_scope"] = g.pick("pool_scope", ["own shared", "own swarm shared", "own"])
+    if "generated" not in scen and g.chance("slots", 0.15):
+        # remote workers on the default nets through slots (gateway/port): their swarm is "localhost", their ids plain netN
+        scen["nets"] = g.pick("slotnets", ["net1 net2", "net1 net2 net3", "net2 net4"])
+        scen["params"]["slots"] = " ".join(f"host.lan/{i + 1}" for i in range(len(scen["nets"].split())))
+        scen["params"]["pool_scope"] = g.pick("slotscope", ["own swarm shared", "own swarm cluster shared", "own swarm shared"])
+        scen["kind"] = "slots"
     if g.chance("longdur", 0.2):
         # long executions that stay within the timeout budget (test_timeout=100 x max_tries)
         fam["durations"] = "long"
@@ -386,6 +405,9 @@ def graph_scenario(g, tier, props):
                          generated_p=0.4, tier=tier)
     scen["graph_props"] = props
     scen["families"]["durations"] = g.pick("gdur", ["ties", "spread", "unit"])
+    if g.chance("twoimages", 0.15):
+        # a vm with two images: a test then depends on one parent through two objects
+        scen["params"]["images_vm1"] = "image1 image2"
     return scen
 
 
@@ -422,7 +444,15 @@ def profile_C06(g, tier):
 
 def profile_C09(g, tier):
     scen = graph_scenario(g, tier, ["C09"])
-    if g.chance("hetero", 0.3):
+    if g.chance("clone-race", 0.12):
+        # a cloned test and its several parents expanded lazily by different workers in different orders
+        scen.pop("generated", None)
+        scen.update(tests=g.pick("crsel", ["leaves..tutorial_gui,leaves..tutorial_get..implicit_both",
+                                           "leaves..tutorial_gui,leaves..tutorial_get..implicit_both,leaves..tutorial1"]),
+                    nets=g.pick("crnets", ["net1 net2", "net1 net2 net3", "cluster1.net6 cluster1.net7", "net2 net4"]),
+                    mode="lazy", vm_strs=dict(VM_DEFAULT), kind="clone-race")
+        scen["params"].pop("images_vm1", None)
+    elif g.chance("hetero", 0.3):
         scen = hetero_scenario(scen, g)
     if scen["mode"] == "eager":
         scen["parse_twice"] = g.chance("twice", 0.5)
@@ -469,7 +499,8 @@ AVAILABLE_VMS = [
 def profile_C15(g, tier):
     available = dict(g.pick("available", AVAILABLE_VMS))
     selected = g.pick("selected", [["vm1"], ["vm2"], ["vm1", "vm2"], ["vm1"], ["vm2"], ["vm3"], ["vm1", "vm2", "vm3"]])
-    nets = g.pick("nets", ["net1", "net1", "net1 net2", "net2 net4", "net1 net2 net4", "cluster1.net6 cluster1.net8", "net1 cluster1.net6"])
+    nets = g.pick("nets", ["net1", "net1 net2", "net2 net4", "net1 net2 net4", "cluster1.net6 cluster1.net8", "net1 cluster1.net6",
+                           "net1 net2 net4", "net1 net2 net3", "net4 net2 net1", "net1 net2 net3 net4"])
     vms_params = {}
     for vm in selected:
         chain = CHAINS[g.pick(f"chain{vm}", [k for k in CHAINS if k.startswith(vm)])]
